@@ -1380,6 +1380,11 @@ func (up4 *UP4) modifyUP4ForwardingConfiguration(pdrs []pdr, allFARs []far, qers
 				return ErrOperationFailedWithReason("applying table entries to UP4", err.Error())
 			}
 
+			if len(p4Error.Get()) == 0 {
+				// the write failed without per-update details: nothing tells which updates were applied
+				return ErrOperationFailedWithReason("applying table entries to UP4", p4Error.Error())
+			}
+
 			for _, status := range p4Error.Get() {
 				// ignore ALREADY_EXISTS or OK
 				if status.GetCanonicalCode() == int32(codes.AlreadyExists) ||
